@@ -10,7 +10,8 @@ META = {
                    "(2 in lindblad_operator.py) the two arms take the same operands (including .conj()) and "
                    "assign the same target; matmul_2x2_with_batched's four index_add_ calls form the table "
                    "{(r,c)} with alpha=left[r,c], destination row r, source right[:,c], starting from zeros. "
-                   "No CUDA device exists in this sandbox, so the non-CPU arm is executed by no test.",
+                   "No CUDA device exists in this sandbox, so the non-CPU arm is executed by no test. "
+                   "LINDBLAD-form/HAM-form: h_eff and the σ-term loops cover every qubit unconditionally, the interaction term is added once, the jump term sums over every qubit and operator.",
     "not_decided": "equality of the operators with the dense Hamiltonian/Lindbladian (numerical)",
     "trusted_base": ["CPython ast", "semantics of torch.Tensor.index_add_, select, unsqueeze"],
     "assumptions": [],
